@@ -309,12 +309,25 @@ def rule_exp_compensate(ctx):
     # distribute_exponent
     f = ctx.prog.func(TC, "TensorNetwork.distribute_exponent")
     where = f"{f.module.relpath}:{f.lineno}"
-    src = "".join(src_of(f.node).split())
     mult = [c for c in ast.walk(f.node) if isinstance(c, ast.Call) and isinstance(c.func, ast.Attribute) and c.func.attr in ("multiply_each_", "multiply_each")]
     store = [s for s in f.node.body if isinstance(s, ast.Assign) and any(src_of(t) == "self.exponent" for t in s.targets)]
+    newp = [p_ for p_ in f.posparams if p_ != "self"][:1]
+    newp = newp[0] if newp else None
+
+    def _is_factor(e):
+        # 10 ** ((self.exponent - <new>) / <number of tensors>)
+        if not (isinstance(e, ast.BinOp) and isinstance(e.op, ast.Pow) and const_value(e.left, None) in (10, 10.0)):
+            return False
+        q = e.right
+        if not (isinstance(q, ast.BinOp) and isinstance(q.op, ast.Div) and isinstance(q.left, ast.BinOp) and isinstance(q.left.op, ast.Sub)):
+            return False
+        a, b, nden = q.left.left, q.left.right, q.right
+        return src_of(a) == "self.exponent" and isinstance(b, ast.Name) and b.id == newp and ("num_tensors" in src_of(nden) or "len(" in src_of(nden))
+
+    factor_ok = any(_is_factor(e) for e in ast.walk(f.node))
     ok = (
-        "10**((self.exponent-new_exponent)/self.num_tensors)" in src and mult and store
-        and src_of(store[-1].value) == "new_exponent" and store[-1].lineno > mult[0].lineno
+        factor_ok and mult and store and newp is not None
+        and isinstance(store[-1].value, ast.Name) and store[-1].value.id == newp and store[-1].lineno > mult[0].lineno
     )
     if ok:
         r.ok("TensorNetwork.distribute_exponent", sample={"factor": "10 ** ((exponent - new) / num_tensors)", "then": "exponent = new"})
